@@ -39,16 +39,12 @@ Definition float_asis (B : Z) (o : fop) (prec : Z) (x y : fval) (n : Z) : list o
   | FoRem => [guard inf2 OperateWithInf (guard (fzero y) DivideBy0 ORet)]
   | FoSqrt => [guard (finf x) OperateWithInf (guard p0 UnlimitedPrecision (guard (fneg x) RootNegative ORet))]
   | FoExp => [guard (finf x) OperateWithInf (guard p0 UnlimitedPrecision ORet)]
-  | FoLn =>
-      if finf x then [OPanic (Doc OperateWithInf)] else if p0 then [OPanic (Doc UnlimitedPrecision)]
-      else if fone x then [ORet]
-      else if fsig x <=? 0 then [OHang; OPanic (Doc Undocumented); OOverflow]   (* no domain check: ln_internal *)
-      else [ORet]
+  | FoLn =>       (* ln_internal since 60b59c4: the domain check follows the shortcut for 1 *)
+      [guard (finf x) OperateWithInf (guard p0 UnlimitedPrecision
+         (if fone x then ORet else guard (fsig x <=? 0) LogOperand ORet))]
   | FoLn1p =>
-      if finf x then [OPanic (Doc OperateWithInf)] else if p0 then [OPanic (Doc UnlimitedPrecision)]
-      else if fzero x then [ORet]
-      else if le_minus_one B (fsig x) (fexp x) then [OHang; OPanic (Doc Undocumented); OOverflow]
-      else [ORet]
+      [guard (finf x) OperateWithInf (guard p0 UnlimitedPrecision
+         (if fzero x then ORet else guard (le_minus_one B (fsig x) (fexp x)) LogOperand ORet))]
   | FoPowi =>
       [guard (finf x) OperateWithInf
          (if n <? 0 then guard p0 UnlimitedPrecision (guard (fzero x) DivideBy0 ORet) else ORet)]
@@ -58,6 +54,46 @@ Definition float_asis (B : Z) (o : fop) (prec : Z) (x y : fval) (n : Z) : list o
           else guard (fneg x) PowerNegativeBase (guard (finf y) OperateWithInf ORet)))]
   | FoTotal => if finf x || finf y then [ORet; OPanic (Doc OperateWithInf)] else [ORet]
   end.
+
+(** ln / ln_1p before the repair 60b59c4 (finding ln_nonpositive, fixed): no domain check, the
+    series loop never met its stopping test for a non-positive argument (release builds), a debug
+    assertion / an isize overflow fired first in checked builds *)
+Definition ln_asis_before_60b59c4 (B : Z) (one_plus : bool) (prec : Z) (x : fval) : list outcome :=
+  if finf x then [OPanic (Doc OperateWithInf)] else if prec =? 0 then [OPanic (Doc UnlimitedPrecision)]
+  else if (if one_plus then fzero x else fone x) then [ORet]
+  else if (if one_plus then le_minus_one B (fsig x) (fexp x) else fsig x <=? 0)
+       then [OHang; OPanic (Doc Undocumented); OOverflow]
+  else [ORet].
+
+(** * operator-form division: repr_div (float/src/div.rs) is entered with the operands as they are.
+    Its debug assertion `lhs.digits() <= precision + rhs.digits()` fails when the dividend has more
+    digits than that - possible only when the dividend's own precision is unlimited and the other
+    operand's is not (Context::max picks the limited one); release builds go on and return a
+    quotient with too many digits.  Digits are those of the normalised significand (Repr::new strips
+    trailing zeros). *)
+Fixpoint strip_fuel (f : nat) (B v : Z) : Z :=
+  match f with
+  | O => v
+  | S k => if (v =? 0) || negb (v mod B =? 0) then v else strip_fuel k B (v / B)
+  end.
+Fixpoint ndig_fuel (f : nat) (B v : Z) : Z :=
+  match f with
+  | O => 0
+  | S k => if v <=? 0 then 0 else 1 + ndig_fuel k B (v / B)
+  end.
+Definition ndig (B s : Z) : Z :=
+  let f := Z.to_nat (Z.log2 (Z.abs s) + 1) in
+  if B <? 2 then 0 else ndig_fuel f B (strip_fuel f B (Z.abs s)).
+Definition opdiv_long (B prec : Z) (x y : fval) : bool :=
+  match x, y with
+  | Fin xs _, Fin ys _ => negb (prec =? 0) && (prec + ndig B ys <? ndig B xs)
+  | _, _ => false
+  end.
+Definition opdiv_asis (B prec : Z) (x y : fval) : list outcome :=
+  if finf x || finf y then [OPanic (Doc OperateWithInf)]
+  else if prec =? 0 then [OPanic (Doc UnlimitedPrecision)]
+  else if opdiv_long B prec x y then [OPanic (Doc Undocumented); guard (fzero y) DivideBy0 ORet]
+  else [guard (fzero y) DivideBy0 ORet].
 
 (** * base conversion *)
 Definition with_base_asis (B NB tprec : Z) (x : fval) : outcome :=
@@ -118,22 +154,21 @@ Definition asis (c : call) : list outcome :=
   | KPrimDiv lo hi a b => [prim_div_asis lo hi a b]
   | KPrimStd lo a b => [prim_std_asis lo a b]
   | KFloat B o prec x y n => float_asis B o prec x y n
+  | KFloatOpDiv B prec x y => opdiv_asis B prec x y
   | KWithBase B NB tprec x => [with_base_asis B NB tprec x]
   | KToPrim B x => to_prim_asis B x
   | _ => match documented c with [] => [ORet] | l => map OPanic l end
   end.
 
 (** * the open finding classes (tags of findings/C16.json) *)
-Inductive tag := TPrimRemNegative | TPrimDivUnfit | TLnNonpositive | TFareyLinear | TWithBasePrecisionZero | TToPrimDigits.
+Inductive tag := TPrimRemNegative | TPrimDivUnfit | TFareyLinear | TWithBasePrecisionZero | TToPrimDigits | TFloatOperandExceedsPrecision.
 Definition known (c : call) : option tag :=
   match c with
   | KPrimRem lo hi a b =>
       if negb (b =? 0) && negb ((lo <=? Z.rem a b) && (Z.rem a b <=? hi)) then Some TPrimRemNegative else None
   | KPrimDiv lo hi a b =>
       if negb (b =? 0) && negb ((lo <=? Z.quot a b) && (Z.quot a b <=? hi)) then Some TPrimDivUnfit else None
-  | KFloat B FoLn prec (Fin s e) y n => if negb (prec =? 0) && (s <=? 0) then Some TLnNonpositive else None
-  | KFloat B FoLn1p prec (Fin s e) y n =>
-      if negb (prec =? 0) && le_minus_one B s e then Some TLnNonpositive else None
+  | KFloatOpDiv B prec x y => if opdiv_long B prec x y then Some TFloatOperandExceedsPrecision else None
   | KToPrim B x => if to_prim_class B x then Some TToPrimDigits else None
   | _ => None
   end.
